@@ -268,23 +268,38 @@ class C06Mon(episodes.Monitor):
             _report(rec, "complete", self.m.complete(s, ts), "final state: ")
 
 
+FILL_ORDERS = ["first", "crowd", "random", "solve", "last", "crowd_only", "random", "solve"]
+
+
+def fill_steps(order, rs):
+    if order == "solve":
+        return [("solve", r) for r in rs]
+    if order == "crowd":
+        return [("crowd" if i % 3 else "legal", r) for i, r in enumerate(rs)]
+    if order == "crowd_only":
+        return [("crowd", r) for r in rs]
+    if order == "first":
+        return [("legal", 0) for _ in rs]
+    if order == "last":
+        return [("legal", -1) for _ in rs]
+    return [("legal", r) for r in rs]
+
+
 @st.composite
 def fill_plans(draw, max_len=80):
-    order = draw(st.sampled_from(["first", "last", "random", "random", "solve", "crowd"]))
+    """Mask-following fill orders.  The order drawn here is only the default: the driver re-assigns it round-robin
+    by case index (`fill_restyle`), because sampled_from is badly skewed over a few dozen cases."""
+    order = draw(st.sampled_from(FILL_ORDERS))
     n = draw(st.integers(2, max_len))
-    if order == "solve":
-        rs = draw(st.lists(st.integers(0, 2**20), min_size=n, max_size=n))
-        return {"style": "fill_solve", "steps": [("solve", r) for r in rs]}
-    if order == "crowd":
-        rs = draw(st.lists(st.integers(0, 2**20), min_size=n, max_size=n))
-        return {"style": "fill_crowd", "steps": [("crowd" if i % 3 else "legal", r) for i, r in enumerate(rs)]}
-    if order == "first":
-        rs = [0] * n
-    elif order == "last":
-        rs = [-1] * n
-    else:
-        rs = draw(st.lists(st.integers(0, 2**20), min_size=n, max_size=n))
-    return {"style": f"fill_{order}", "steps": [("legal", r) for r in rs]}
+    rs = draw(st.lists(st.integers(0, 2**20), min_size=n, max_size=n))
+    return {"style": f"fill_{order}", "rs": rs, "steps": fill_steps(order, rs)}
+
+
+def fill_restyle(plan, index):
+    if "rs" not in plan:
+        return plan
+    order = FILL_ORDERS[index % len(FILL_ORDERS)]
+    return dict(plan, style=f"fill_{order}", steps=fill_steps(order, plan["rs"]))
 
 
 # ---------------------------------------------------------------------------------------------- C07
@@ -409,7 +424,11 @@ class HistoryProp:
             b = envs.bundle(item["env"], item["entry"])
             model = _model_setup(self.method)(ctx, b)
 
+            counter = {"i": 0}
+
             def one(key, plan):
+                plan = fill_restyle(plan, counter["i"])
+                counter["i"] += 1
                 rec = episodes.Recorder(ctx, b, key)
                 mon = self.mon_cls(b, ctx, model)
                 try:
